@@ -192,6 +192,17 @@ theorem newWithCause_cause (h : Heap) (m : String) (c : Val) :
   intro i hi
   simp [newWithCause, Array.getElem?_push, Nat.ne_of_lt hi]
 
+/-- an element of `WrappedErrors()` used as a value of its own (e.g. as the accumulator of a later `Append`) is a
+    detached copy in a fresh cell: it has no link, the heap invariant is kept, no existing cell changes and no existing
+    chain passes through the new cell — so by `append_frame`/`append_written` a later `Append` on it writes only that cell
+    and fresh ones, never the aggregate it was taken from -/
+theorem wrapped_elem_detached (h : Heap) (hwf : WF h) (id i : Nat) (n : ENode)
+    (hn : (wrappedErrors h id)[i]? = some n) :
+    elem h (.ref id) i = (h.push n, .ref h.size) ∧ n.next = none ∧ WF (h.push n) ∧
+    (∀ j, j < h.size → (h.push n)[j]? = h[j]?) ∧
+    (∀ id', id' < h.size → h.size ∉ chain h (fuelOf h) id') :=
+  elem_spec h hwf id i n hn
+
 /-- the constructors keep the heap invariant (`New`, `NewWithCause`, `&Error{}`, `Wrap`, `WrapTyped`) -/
 theorem constructors_wf (h : Heap) (hwf : WF h) (m : String) (c v : Val) :
     WF (new h m).1 ∧ WF (newWithCause h m c).1 ∧ WF (newEmpty h).1 ∧ WF (wrap h v).1 ∧ WF (wrapTyped h v).1 :=
